@@ -7,7 +7,7 @@ from fractions import Fraction
 import z3
 
 from . import smt
-from .values import (NOT_IMPLEMENTED, BoundMethod, Builtin, CachedFunc, ClassMethodVal, ClassVal, DictVal,
+from .values import (MapVal, NOT_IMPLEMENTED, BoundMethod, Builtin, CachedFunc, ClassMethodVal, ClassVal, DictVal,
                      DispatchVal, EnumMember, ExcVal, FmtStr, FuncVal, IsoStr, ListVal, ModuleVal, Obj, Opaque,
                      PropertyVal, PyvcError, SeqVal, SetVal, StaticMethodVal, Sym, SymList, TupleVal, Unsupported)
 
@@ -145,6 +145,12 @@ def truth(I, ctx, v):
         return True
     if isinstance(v, (FmtStr, IsoStr)):
         return True
+    if isinstance(v, OptVal):
+        if ctx.branch(v.is_none):
+            return False
+        return truth(I, ctx, v.val)
+    if isinstance(v, MapVal):
+        raise Unsupported(f"truth value of a symbolic map at {ctx.where}")
     if isinstance(v, Opaque):
         t = v.attrs.get("truth")
         if t is not None:
@@ -657,9 +663,14 @@ def contains(I, ctx, container, item):
         if not fs:
             return False
         return wrap(smt.Or(*fs))
+    if isinstance(container, MapVal):
+        return wrap(container.lookup(item)[0])
     if isinstance(container, DictVal):
         from .interp import hkey
-        return hkey(item) in container.items
+        try:
+            return hkey(item) in container.items
+        except Unsupported:
+            return wrap(map_from_dict(I, ctx, container).lookup(item)[0])
     if isinstance(container, SetVal):
         from .interp import hkey
         return hkey(item) in container.items
@@ -773,6 +784,11 @@ def getitem(I, ctx, o, k):
             idx = ctx.choose([i == j for j in range(len(items))])
             return items[idx]
         raise I.raise_exc("TypeError")
+    if isinstance(o, MapVal):
+        pres, v = o.lookup(k)
+        if not ctx.branch(pres):
+            raise ExcVal(I.exc_classes["KeyError"], (k,))
+        return v
     if isinstance(o, DictVal):
         hk = hkey(k)
         if hk not in o.items:
@@ -858,8 +874,14 @@ def setitem(I, ctx, o, k, v):
             raise Unsupported(f"symbolic index store into concrete list at {ctx.where}")
         o.items[i] = v
         return
+    if isinstance(o, MapVal):
+        map_store(I, ctx, o, k, v)
+        return
     if isinstance(o, DictVal):
-        hk = hkey(k)
+        try:
+            hk = hkey(k)
+        except Unsupported:
+            raise Unsupported(f"symbolic key stored into a concrete dict at {ctx.where}: use a MapVal in the setup")
         o.items[hk] = v
         o.keyvals.setdefault(hk, k)
         return
@@ -881,6 +903,40 @@ def setitem(I, ctx, o, k, v):
         o.obj.fields[enum_str(k)] = v
         return
     raise Unsupported(f"item assignment on {o!r} at {ctx.where}")
+
+
+def map_store(I, ctx, m, k, v):
+    old = m.lookup
+
+    def lookup(q, old=old, k=k, v=v):
+        hit = _zb(eq_formula(I, ctx, q, k))
+        p0, v0 = old(q)
+        return smt.simp(z3.Or(hit, p0)), ite_val(hit, lambda: v, lambda: v0)
+    m.lookup = lookup
+
+
+def map_from_dict(I, ctx, d):
+    """closure view of a concrete dict (so symbolic keys can be looked up in it)"""
+    def lookup(q, d=d):
+        pres, val = z3.BoolVal(False), None
+        for hk, v in d.items.items():
+            hit = _zb(eq_formula(I, ctx, q, d.keyvals[hk]))
+            val = v if val is None else ite_val(hit, (lambda v=v: v), (lambda val=val: val))
+            pres = z3.Or(hit, pres)
+        return smt.simp(pres), val
+    return MapVal(lookup, "from-dict")
+
+
+def map_get(I, ctx, m, k, default=None):
+    pres, v = m.lookup(k)
+    pres = smt.simp(pres)
+    if z3.is_false(pres):
+        return default
+    if z3.is_true(pres):
+        return v
+    if default is None:
+        return OptVal(smt.simp(z3.Not(pres)), v)
+    return ite_val(pres, lambda: v, lambda: default)
 
 
 def delitem(I, ctx, o, k):
